@@ -151,6 +151,13 @@ def fnOf : String → Option Fn
 def ratW (q : Rat) : String := "F:" ++ ratWire q
 def intW (z : Int) : String := s!"I:{z}"
 
+def absR (q : Rat) : Rat := if q < 0 then -q else q
+
+/-- D37: double arithmetic on number and significance is exact only for an integer-valued
+    significance with both operands below 2^53; elsewhere the float quotient / product decides. -/
+def inexactZone (x s : Rat) : Bool :=
+  s.den != 1 || absR s ≥ ((2 ^ 53 : Nat) : Rat) || absR x ≥ ((2 ^ 53 : Nat) : Rat)
+
 /-- the rounding family: `(impl, spec, kf)` -/
 def rounding (fn : String) (args : List String) : Option (String × String × String) :=
   match fn, args with
@@ -179,14 +186,14 @@ def rounding (fn : String) (args : List String) : Option (String × String × St
       let x ← parseDec xs; let s ← parseDec ss
       let xq := decRat x; let sq := decRat s
       let spec := if Spec.C16.outside .CEILING [xq, sq] then "ERR" else ratW (Spec.C16.ceiling xq sq)
-      -- D37: with a non-integer significance the binary float quotient / product decides
-      let kf := if sq != 0 && quotientUnderflows xq sq then "D1605" else if sq.den != 1 then "D37" else ""
+      -- D37: outside the zone where double arithmetic is exact the float quotient / product decides
+      let kf := if sq != 0 && quotientUnderflows xq sq then "D1605" else if inexactZone xq sq then "D37" else ""
       pure (resWire rvalWire (CEILING x s), spec, kf)
   | "FLOOR", [xs, ss] => do
       let x ← parseDec xs; let s ← parseDec ss
       let xq := decRat x; let sq := decRat s
       let spec := if Spec.C16.outside .FLOOR [xq, sq] then "ERR" else ratW (Spec.C16.floor xq sq)
-      let kf := if sq != 0 && quotientUnderflows xq sq then "D1605" else if sq.den != 1 then "D37" else ""
+      let kf := if sq != 0 && quotientUnderflows xq sq then "D1605" else if inexactZone xq sq then "D37" else ""
       pure (resWire rvalWire (FLOOR x s), spec, kf)
   | _, _ => none
 
